@@ -10,6 +10,27 @@ CHECKS = {
  "C02": ("reference-model monitor (independent mpmath model of the documentation) on 60-digit and float64 runs",
          "3.C02", "Reference-model runtime monitor: each operation's result on 60-digit objects (all signatures) and on float64 object/NumPy vectors (exact binary inputs, well-conditioned core) is compared with an independent executable model of the documented definitions.",
          "the model's reading of the documentation (DESIGN 2.2); float64 judged on the well-conditioned core at 1e-9"),
+ "C03": ("differential monitor: object vs NumPy vs Awkward on identical float64 inputs across shapes/layouts/routes/pairings", "3.C03",
+         "Cross-backend differential runtime monitor: every operation on 8-element batches as object calls, NumPy arrays (6 shapes, strided views, mixed with objects) and Awkward arrays/records (9 layouts, 3 construction routes incl. hand-named momentum records, mixed pairings); element i must equal the object result (1e-11), shapes/list structure/missing positions/record names preserved.",
+         "object backend is the reference (C02 judges it); well-conditioned operands"),
+ "C04": ("exhaustive configuration lattice + bit-for-bit stored-coordinate oracles (mp, float64 object, NumPy, Awkward)", "3.C04",
+         "Runtime oracle over the exhaustive lattice of 20 sources x 40 to_* targets x 4 backends x 2 flavors and every projection/embedding keyword spelling: round trips (1e-35 / 1e-9), own-system conversions and retained coordinates bit-for-bit, imputed keyword values in the named coordinate type, conflicting keywords rejected.",
+         "representable domain for round trips; special bit patterns only for pass-through oracles"),
+ "C05": ("rule-model monitor over the type lattice (classes, record names, coordinate types, exception types)", "3.C05",
+         "Type-level runtime monitor: a small rule model predicts backend/flavor/dimension/coordinate-system/exception of every call in the lattice (all signatures x flavor pairs on objects; all backend pairings incl. records; all dimension pairings; operators vs methods); observations are compared with it.",
+         "axis of rotate_axis does not count; scalar result containers not judged"),
+ "C06": ("reference classifier from the documentation over all 16663 name sets x 11 constructors, each call twice with shared arguments", "3.C06",
+         "Exhaustive runtime enumeration of every subset of <= 5 of the 19 coordinate names for obj, the six object classes, array (dict, dtype=), zip, Array; outcomes compared with a classifier written from the docs; stored values read back bit-for-bit; hostile values; history independence.",
+         "array constructors may accept supersets (extra fields) as stated"),
+ "C14": ("exhaustive synonym-table walk, bit-for-bit comparison of both spellings on object/NumPy/Awkward/SymPy + flavor twins", "3.C14",
+         "Runtime oracle: each synonym getter/setter/field/index/conversion is evaluated next to its geometric spelling on every backend and coordinate system and compared bit-for-bit (SymPy: srepr); results of momentum-named Awkward arrays must have no stale coordinate fields; flavor twins give identical numbers.",
+         "bitwise equality, no tolerance"),
+ "C16": ("snapshot monitor: bit-exact operand snapshots before/after every call of the cross-backend sweep + dedicated actions", "3.C16",
+         "Invariant monitor: operands (object slots, NumPy root buffers/dtype names/shape/strides/class, Awkward form+buffers+behavior) are snapshotted before and after every catalogued call in every array variant, and around operators, numpy functions, reductions, conversions with keywords, aliasing a.op(a), read-only arrays, pickle/copy/view.",
+         "result/operand memory sharing is counted, not judged"),
+ "C18": ("layout generator + structure/field/record oracles on Awkward results", "3.C18",
+         "Runtime oracle on 12 Awkward layouts x 3 routes x all operations: list structure, missing positions and nesting type preserved; extra fields (numeric, string, nested list) carried unchanged by single-array operations; two-vector arithmetic returns coordinates only; record names; records taken out of arrays behave like the equivalent object for every operation.",
+         "boosts/rotate_axis not judged on carrying extra fields"),
  "C09": ("algebraic-law monitor on public boost methods (mp + float64)", "3.C09",
          "Law monitor: invariance, inverse, composition and cross-spelling identities of boosts are evaluated on the public API for every system of vector and booster, 60-digit and float64; both sides of each law are produced by the library, compared through the monitor's own readout.",
          "tau-stored operands forward timelike; tolerance scaled by gamma^2"),
@@ -26,7 +47,7 @@ CHECKS = {
          "Invariant-at-a-hook monitor: every dispatch of phi/deltaphi/theta/deltaangle/rho/mag/rho2/mag2/t2/t during the workload is range-checked; boundary strata on object/NumPy/Awkward/60-digit; causal and angle predicates judged against exact cosines/tau2 outside a 1e-9 margin.",
          "strict/sign contracts judged only outside the margin; magnitudes within [1e-150, 1e150]"),
 }
-PENDING = ["C03", "C04", "C05", "C06", "C07", "C08", "C14", "C15", "C16", "C17", "C18", "C19", "C20"]
+PENDING = ["C07", "C08", "C15", "C17", "C19", "C20"]
 
 def main():
     checks = []
